@@ -3,7 +3,7 @@ import os
 
 import numpy as np
 
-from .. import env, core, gen, conv, spec, mksegy, symcodec
+from .. import env, core, gen, conv, spec, mksegy, symcodec, writercorr
 from seismic_zfp.read import SgzReader  # noqa: E402
 
 ASSUMPTIONS = ["A1 zfpy cellwise (validated in-run)", "A2 segyio/pyvds/pyzgy deliver the source samples (IBM->IEEE, VDS, ZGY)",
@@ -62,46 +62,10 @@ def one_case(ctx, rng, k, model):
     ctx.stats['multiblock_z'] += int(n[2] > bs[2])
     for p in probs:
         ctx.fail(p, desc)
-    # K: writer placement under the symbolic compressor (NumPy route and SEG-Y route): unit j <- which source cell
+    # K: writer placement under the symbolic compressor, every route: unit j <- which source cell (Model/Writer)
     if k % 2 == 0 and n[0] * n[1] * n[2] < 2 ** 22:
-        lin = gen.linear_cube(n)
-        with symcodec.symbolic_encoder() as enc:
-            if route == 'numpy' or True:
-                conv.numpy_to_sgz(lin, ctx.path('k.sgz'), q, bs)
-        writer_correspondence(ctx, model, n, bs, q, enc, ctx.path('k.sgz'), desc)
-
-
-def writer_correspondence(ctx, model, n, bs, q, enc, path, desc):
-    """per unit of the written file (file order): digest of the 64 source linear indices it was coded from"""
-    lay = spec.Layout(n, bs, q)
-    with open(path, 'rb') as f:
-        f.seek(spec.DISK * 2)
-        data = f.read(spec.DISK * lay.n_blocks)
-    if len(data) != spec.DISK * lay.n_blocks:
-        ctx.corr_fail('Model.Writer', f'writer {n} {bs} {q}', 'data section length', len(data), desc)
-        return
-    ids = np.frombuffer(data, dtype=np.uint8).reshape(lay.n_units, lay.u)[:, :min(lay.u, 8)]
-    idv = np.zeros(lay.n_units, dtype=np.int64)
-    for b in range(ids.shape[1]):
-        idv |= ids[:, b].astype(np.int64) << (8 * b)
-    impl = []
-    for j in range(lay.n_units):
-        c = enc.cells.get(int(idv[j]))
-        if c is None:
-            impl.append(-1)
-        else:
-            v = c.astype(np.int64).ravel()
-            impl.append(int((v[0] * 1000003 + v[63] * 10007 + int(v.sum())) % 2147483647))
-    ctx.stats['corr_requests'] += 1
-    ans = model.ask(f"writer {n[0]} {n[1]} {n[2]} {bs[0]} {bs[1]} {bs[2]} {lay.u}")
-    if ans == 'bad-op':
-        ctx.stats['writer_model_missing'] += 1
-        return
-    m = [int(v) for v in ans.split()]
-    if m != impl:
-        first = next((j for j in range(min(len(m), len(impl))) if m[j] != impl[j]), None)
-        ctx.corr_fail('Model.Writer', f'writer {n} {bs} {q}', f'len {len(m)} first diff unit {first}',
-                      f'len {len(impl)}', desc)
+        kroute = ['numpy', 'segy', 'segy-ri'][(k // 2) % 3]
+        writercorr.check(ctx, model, n, bs, q, kroute, desc, want_hash=False)
 
 
 def vds_zgy(ctx):
